@@ -6,6 +6,7 @@ of a model `Outcome`.
 import Driver.Proto
 import AGH.Spec.Filter
 import AGH.Model.FilterRules
+import AGH.Model.FilterConfig
 namespace Driver.FilterIO
 open Driver AGH AGH.Filter
 
@@ -410,5 +411,127 @@ def engineMismatch (cs : Case) (e : Engines) : Option String :=
     match svcs.find? (fun sv => e.svc sv (qhost cs.q) != cs.svcOracle.contains sv.name) with
     | some sv => some ("SERVICE-MISMATCH " ++ hexEncode sv.name)
     | none => none
+
+/-! ## configuration-sequence mode (shared by the C01 and C02 drivers) -/
+
+def renderEntries (l : List Cfg.Entry) : String :=
+  if l.isEmpty then "-" else
+  ",".intercalate (l.map (fun en => toString en.src ++ ":" ++ (if en.enabled then "1" else "0") ++ ":" ++ toString en.count))
+
+def renderCfg (code : Nat) (s : Cfg.State) : String :=
+  "\t".intercalate [toString code, renderEntries s.block, renderEntries s.allow,
+    (if s.filtering then "1" else "0"), toString s.userRules.length]
+
+def hexLines (fs : List String) : Option (List Bytes) := fs.mapM hexDecode
+
+/-- one configuration op: `(status, new state)`; the observation is the HTTP
+status and what GET /control/filtering/status reports afterwards -/
+def cfgOp (s : Cfg.State) (op : String) (args : List String) : Option (String × Cfg.State) := do
+  match op, args with
+  | "creset", n :: rest =>
+    -- n sources, each: k lines
+    let cnt ← n.toNat?
+    let rec srcs : Nat → List String → Option (List (List Bytes))
+      | 0, [] => some []
+      | 0, _ => none
+      | k + 1, m :: more => do
+        let mm ← m.toNat?
+        let ls ← hexLines (more.take mm)
+        let restS ← srcs k (more.drop mm)
+        some (ls :: restS)
+      | _, [] => none
+    let ss ← srcs cnt rest
+    pure ("reset", { sources := ss })
+  | "csrc", i :: lines =>
+    let idx ← i.toNat?
+    let ls ← hexLines lines
+    pure ("ok", { s with sources := s.sources.set idx ls })
+  | "cadd", [i, w] =>
+    let (code, s') := Cfg.addURL s (← i.toNat?) (← parseBool w)
+    pure (renderCfg code s', s')
+  | "cset", [i, w, j, en] =>
+    let (code, s') := Cfg.setURL s (← i.toNat?) (← parseBool w) (← j.toNat?) (← parseBool en)
+    pure (renderCfg code s', s')
+  | "cremove", [i, w] =>
+    let (code, s') := Cfg.removeURL s (← i.toNat?) (← parseBool w)
+    pure (renderCfg code s', s')
+  | "crefresh", [w] =>
+    let (code, s') := Cfg.refresh s (← parseBool w)
+    pure (renderCfg code s', s')
+  | "crules", lines =>
+    let ls ← hexLines lines
+    let s' := { s with userRules := ls }
+    pure (renderCfg 200 s', s')
+  | "cfilt", [en] =>
+    let s' := { s with filtering := ← parseBool en }
+    pure (renderCfg 200 s', s')
+  | "cprot", [en] =>
+    let s' := { s with protection := ← parseBool en }
+    pure (renderCfg 200 s', s')
+  | "chold", [_] => pure ("ok", s)
+  | "cdrain", [] => pure ("ok", s)
+  | "cbreak", [i] =>
+    let (ok, s') := Cfg.freeze s (← i.toNat?)
+    pure (if ok then "ok" else "skip", s')
+  | "cstall", [i] =>
+    let (ok, s') := Cfg.freeze s (← i.toNat?)
+    pure (if ok then "ok" else "skip", { s' with stalled := ok })
+  | "cfix", [] => pure ("ok", Cfg.thaw s)
+  | "cunstall", [] => pure ("ok", Cfg.thaw s)
+  | _, _ => none
+
+/-- the scripted upstream of the configuration-sequence mode: one TXT record "up" -/
+def cfgUpstream (q : Query) : Upstream :=
+  { rcode := 0, answer := [{ name := q.name, ttl := 60, data := .other 16 [117, 112] }] }
+
+/-- the upstream of `cqa`: `name CNAME target.` followed by an address record -/
+def cfgUpstreamCNAME (q : Query) (target : Bytes) : Upstream :=
+  { rcode := 0, answer := [
+      { name := q.name, ttl := 60, data := .cname (target ++ [46]) },
+      { name := target ++ [46], ttl := 60,
+        data := .a (some { v6 := false, val := 3221225985, str := [49, 57, 50, 46, 48, 46, 50, 46, 49] }) }] }
+
+/-- `cq name type` / `cqa name type target`: a query under the rules in force -/
+def cfgQuery (check : Engines → Conf → Upstream → Query → Outcome → Option String)
+    (s : Cfg.State) (withAnswer : Bool) (fs : List String) : Option String := do
+  let (ins, impl) ← splitArrow fs
+  let (qn, qt, tg) ← (match ins, withAnswer with
+    | [qn, qt], false => some (qn, qt, "-")
+    | [qn, qt, tg], true => some (qn, qt, tg)
+    | _, _ => none)
+  let q : Query := { name := ← hexDecode qn, qtype := ← qt.toNat? }
+  let block ← parseLines s.engBlock
+  let allow ← parseLines s.engAllow
+  let e := ruleEngines block allow
+  let c := s.conf
+  let tgB ← hexDecode tg
+  let u := if withAnswer then cfgUpstreamCNAME q tgB else cfgUpstream q
+  let m := handle e c u q
+  let mOut := renderOutcome m
+  let shown := "config:" ++ classOf c m ++ "\t" ++ mOut
+  if impl.head? == some "PANIC" then pure (verdict false (some "impl-panic") shown)
+  else if isHang impl then pure (verdict false (some "request-hangs") shown)
+  else
+    let (obs, _) ← outcomeP.run impl
+    pure (verdict (mOut == renderOutcome obs) ((check e c u q obs).map (fun w => "config-seq:" ++ w)) shown)
+
+/-- one line of a configuration sequence (op name without the property prefix) -/
+def cfgStep (check : Engines → Conf → Upstream → Query → Outcome → Option String)
+    (st : Option Cfg.State) (op : String) (rest : List String) : Option Cfg.State × String :=
+  if op == "cq" || op == "cqa" then
+    match st with
+    | some s => (st, (cfgQuery check s (op == "cqa") rest).getD "bad-op")
+    | none => (st, "bad-op")
+  else
+    match splitArrow rest with
+    | some (ins, impl) =>
+      let s0 : Cfg.State := st.getD { sources := [] }
+      -- a configuration call while a rebuild is stalled: the harness lets the rebuild finish first
+      let s0 := if s0.stalled && op != "cunstall" then Cfg.thaw s0 else s0
+      match cfgOp s0 op ins with
+      | some (expect, s') => (some s', verdict (expect == "\t".intercalate impl) none ("config:" ++ expect))
+      | none => (st, "bad-op")
+    | none => (st, "bad-op")
+
 
 end Driver.FilterIO
